@@ -2,6 +2,7 @@ import Driver.Witness
 import Driver.Bastion
 import Driver.Conc
 import Driver.Feeder
+import Driver.Dist
 open Std
 namespace Drv
 
@@ -40,6 +41,7 @@ def handle (st : St) (n : Nat) (line : String) : Result := Id.run do
   | "U" :: _ => return handleU st n toks
   | "H" :: _ => return handleH st n toks
   | "FD" :: _ => return handleFD st n toks
+  | "DS" :: _ => return handleDS st n toks
   | "LR" :: sid :: _ => return { st := { st with lreqs := st.lreqs.push (sid, toks) }, out := [] }
   | "LIN" :: sid :: _ =>
     let mine := st.lreqs.filter (fun p => p.1 == sid)
